@@ -163,3 +163,221 @@ pub(crate) fn begin_walk(root: usize) {
 pub(crate) fn end_walk() -> Vec<Node> {
     with(|s| s.walk.take().map(|w| w.nodes).unwrap_or_default())
 }
+
+// ---------------------------------------------------------------------------------------------
+// Value graph dump: the heap objects reachable from one value, with their edges, in first-visit
+// (depth first, fields left to right) order.  Nothing is marked, allocated or freed.  A freed
+// (quarantined) object is reported but never looked into; `Thread` objects are leaves.
+
+/// A field of a heap object (or the root of a dumped value).
+#[derive(Clone, Debug, PartialEq)]
+pub enum GraphEdge {
+    /// Unboxed value: `int:<i64>`, `byte:<u8>`, `float:<bits as hex>`, `tag:<u32>`
+    Imm(String),
+    /// Pointer to the heap object with this header address
+    Ptr(usize),
+}
+
+/// One heap object of a dumped value graph.
+#[derive(Clone, Debug)]
+pub struct GraphNode {
+    pub addr: usize,
+    pub owner: usize,
+    pub generation: i32,
+    pub freed: bool,
+    /// `string`, `data`, `array:<repr>`, `closure`, `papp`, `extern`, `bytecode`, `reference`,
+    /// `lazy:thunk|value|blackhole`, `receiver`, `sender`, `userdata`, `thread`
+    pub kind: String,
+    /// Payload that is not a pointer: string contents, constructor tag / field names, function name
+    pub label: String,
+    /// For `reference`, `lazy` and `sender`: the heap (`Thread::verif_gc_id`) of the thread the
+    /// cell clones incoming values into; 0 otherwise.
+    pub cell_heap: usize,
+    pub edges: Vec<GraphEdge>,
+    /// Interned strings the object's `TypeInfo` refers to (record field names, variant name):
+    /// `(header address, owner, freed)`.  They are not traced (the interner owns them).
+    pub names: Vec<(usize, usize, bool)>,
+}
+
+#[derive(Clone, Debug)]
+pub struct Graph {
+    pub root: GraphEdge,
+    pub nodes: Vec<GraphNode>,
+}
+
+struct GraphWalk {
+    seen: HashSet<usize>,
+    nodes: Vec<GraphNode>,
+}
+
+/// Dump the graph reachable from `value`.
+pub fn graph(value: &crate::value::Value) -> Graph {
+    let mut w = GraphWalk {
+        seen: HashSet::new(),
+        nodes: Vec::new(),
+    };
+    let root = w.value(value);
+    Graph {
+        root,
+        nodes: w.nodes,
+    }
+}
+
+impl GraphWalk {
+    /// Registers the object; returns the index of its node when it must still be filled in.
+    fn enter<T: ?Sized>(
+        &mut self,
+        ptr: &crate::gc::GcPtr<T>,
+        kind: &str,
+    ) -> (GraphEdge, Option<usize>) {
+        let addr = ptr.verif_addr();
+        let edge = GraphEdge::Ptr(addr);
+        if !self.seen.insert(addr) {
+            return (edge, None);
+        }
+        let freed = is_freed(addr);
+        self.nodes.push(GraphNode {
+            addr,
+            owner: owner_of(addr).unwrap_or(0),
+            generation: if freed { -2 } else { ptr.generation().verif_raw() },
+            freed,
+            kind: kind.to_string(),
+            label: String::new(),
+            cell_heap: 0,
+            edges: Vec::new(),
+            names: Vec::new(),
+        });
+        (edge, if freed { None } else { Some(self.nodes.len() - 1) })
+    }
+
+    fn value(&mut self, value: &crate::value::Value) -> GraphEdge {
+        use crate::value::ValueRepr::*;
+        match value.get_repr() {
+            Byte(b) => GraphEdge::Imm(format!("byte:{}", b)),
+            Int(i) => GraphEdge::Imm(format!("int:{}", i)),
+            Float(f) => GraphEdge::Imm(format!("float:{:016x}", f.to_bits())),
+            Tag(t) => GraphEdge::Imm(format!("tag:{}", t)),
+            String(s) => {
+                let (e, slot) = self.enter(s, "string");
+                if let Some(i) = slot {
+                    self.nodes[i].label = (**s).to_string();
+                }
+                e
+            }
+            Data(d) => {
+                let (e, slot) = self.enter(d, "data");
+                if let Some(i) = slot {
+                    let mut refs: Vec<(usize, usize, bool)> = Vec::new();
+                    for n in d.field_names().iter().chain(d.poly_tag()) {
+                        let a = n.verif_addr();
+                        refs.push((a, owner_of(a).unwrap_or(0), is_freed(a)));
+                    }
+                    let dangling = refs.iter().any(|r| r.2);
+                    self.nodes[i].label = if dangling {
+                        // the names live in a heap that is gone: reading them is a use after free
+                        "FREED-NAMES".to_string()
+                    } else if d.is_record() {
+                        let names: Vec<std::string::String> =
+                            d.field_names().iter().map(|n| n.to_string()).collect();
+                        format!("record {{{}}}", names.join(","))
+                    } else {
+                        match d.poly_tag() {
+                            Some(t) => format!("variant {} {}", d.tag(), &**t),
+                            None => format!("variant {}", d.tag()),
+                        }
+                    };
+                    self.nodes[i].names = refs;
+                    let edges: Vec<GraphEdge> = d.fields.iter().map(|f| self.value(f)).collect();
+                    self.nodes[i].edges = edges;
+                }
+                e
+            }
+            Array(a) => self.array(a),
+            Function(f) => self.extern_fn(f),
+            Closure(c) => self.closure(c),
+            PartialApplication(p) => {
+                let (e, slot) = self.enter(p, "papp");
+                if let Some(i) = slot {
+                    let mut edges = vec![match &p.function {
+                        crate::value::Callable::Closure(c) => self.closure(c),
+                        crate::value::Callable::Extern(f) => self.extern_fn(f),
+                    }];
+                    for a in p.args.iter() {
+                        edges.push(self.value(a));
+                    }
+                    self.nodes[i].edges = edges;
+                }
+                e
+            }
+            Userdata(u) => self.userdata(u),
+            Thread(t) => self.enter(t, "thread").0,
+        }
+    }
+
+    fn array(&mut self, a: &crate::gc::GcPtr<crate::value::ValueArray>) -> GraphEdge {
+        let (e, slot) = self.enter(a, "array");
+        if let Some(i) = slot {
+            self.nodes[i].kind = format!("array:{:?}", a.repr()).to_lowercase();
+            let mut edges = Vec::new();
+            for v in a.iter() {
+                edges.push(self.value(v.get_value()));
+            }
+            self.nodes[i].edges = edges;
+        }
+        e
+    }
+
+    fn extern_fn(&mut self, f: &crate::gc::GcPtr<crate::value::ExternFunction>) -> GraphEdge {
+        let (e, slot) = self.enter(f, "extern");
+        if let Some(i) = slot {
+            self.nodes[i].label = format!("{}/{}", f.id.declared_name(), f.args);
+        }
+        e
+    }
+
+    fn closure(&mut self, c: &crate::gc::GcPtr<crate::value::ClosureData>) -> GraphEdge {
+        let (e, slot) = self.enter(c, "closure");
+        if let Some(i) = slot {
+            let (fe, fslot) = self.enter(&c.function, "bytecode");
+            if let Some(j) = fslot {
+                self.nodes[j].label =
+                    format!("{}/{}", c.function.name.declared_name(), c.function.args);
+            }
+            let mut edges = vec![fe];
+            for u in c.upvars.iter() {
+                edges.push(self.value(u));
+            }
+            self.nodes[i].edges = edges;
+        }
+        e
+    }
+
+    fn userdata(
+        &mut self,
+        u: &crate::gc::GcPtr<Box<dyn crate::value::Userdata>>,
+    ) -> GraphEdge {
+        use crate::api::generic::A;
+        let (e, slot) = self.enter(u, "userdata");
+        if let Some(i) = slot {
+            if let Some(r) = u.downcast_ref::<crate::reference::Reference<A>>() {
+                self.nodes[i].kind = "reference".into();
+                self.nodes[i].cell_heap = r.verif_thread().verif_gc_id();
+                let edge = r.verif_with_value(|v| self.value(v));
+                self.nodes[i].edges = vec![edge];
+            } else if let Some(l) = u.downcast_ref::<crate::lazy::Lazy<A>>() {
+                self.nodes[i].cell_heap = l.verif_thread().verif_gc_id();
+                let (state, edge) = l.verif_with_state(|state, v| (state, v.map(|v| self.value(v))));
+                self.nodes[i].kind = format!("lazy:{}", state);
+                self.nodes[i].edges = edge.into_iter().collect();
+            } else if let Some(r) = u.downcast_ref::<crate::channel::Receiver<A>>() {
+                self.nodes[i].kind = "receiver".into();
+                let edges = r.verif_with_queue(|q| q.iter().map(|v| self.value(v)).collect());
+                self.nodes[i].edges = edges;
+            } else if let Some(s) = u.downcast_ref::<crate::channel::Sender<A>>() {
+                self.nodes[i].kind = "sender".into();
+                self.nodes[i].cell_heap = s.verif_thread().verif_gc_id();
+            }
+        }
+        e
+    }
+}
